@@ -278,7 +278,7 @@ func (s MinPriorityCoinSelector) CoinSelect(targetValue bchutil.Amount, coins []
 		if err != nil {
 			// attempt to add available low priority to make a solution
 
-			for numLow := 1; numLow <= cutoffIndex && numLow+(i-cutoffIndex) <= s.MaxInputs; numLow++ {
+			for numLow := 1; numLow <= cutoffIndex && numLow+(i-cutoffIndex)+1 <= s.MaxInputs; numLow++ {
 				allHigh := NewCoinSet(possibleCoins[cutoffIndex : i+1])
 				newTargetValue := targetValue - allHigh.TotalValue()
 				newMaxInputs := allHigh.Num() + numLow
